@@ -1,0 +1,196 @@
+//! verif-hooks (feature `verif-hooks`, off by default): re-exports of the pool core types, a
+//! read-only dump of `PoolMap`, and thin pass-through wrappers around crate-private operations so
+//! that the /verif correspondence harness can drive the real `PoolMap` / `TxPool` in-process.
+//! Add-only; nothing here changes behaviour.
+pub use crate::callback::Callbacks;
+pub use crate::component::entry::TxEntry;
+pub use crate::component::pool_map::{PoolEntry, PoolMap, Status};
+pub use crate::component::sort_key::{AncestorsScoreSortKey, EvictKey};
+pub use crate::component::tx_selector::TxSelector;
+pub use crate::error::Reject;
+pub use crate::pool::TxPool;
+
+use ckb_snapshot::Snapshot;
+use ckb_types::core::{Cycle, TransactionView};
+use ckb_types::packed::{Byte32, OutPoint, ProposalShortId};
+use std::collections::HashSet;
+
+/// One pool entry as stored (the entry with its eight aggregates, plus the two stored index keys).
+pub struct EntryDump {
+    pub id: ProposalShortId,
+    pub status: Status,
+    pub entry: TxEntry,
+    pub score: AncestorsScoreSortKey,
+    pub evict_key: EvictKey,
+}
+
+/// Read-only copy of every piece of `PoolMap` bookkeeping.
+pub struct PoolDump {
+    pub entries: Vec<EntryDump>,
+    /// (id, parents, children)
+    pub links: Vec<(ProposalShortId, Vec<ProposalShortId>, Vec<ProposalShortId>)>,
+    pub inputs: Vec<(OutPoint, ProposalShortId)>,
+    pub deps: Vec<(OutPoint, Vec<ProposalShortId>)>,
+    pub header_deps: Vec<(ProposalShortId, Vec<Byte32>)>,
+    pub max_ancestors_count: usize,
+    pub total_tx_size: usize,
+    pub total_tx_cycles: Cycle,
+    pub pending_count: usize,
+    pub gap_count: usize,
+    pub proposed_count: usize,
+}
+
+impl PoolMap {
+    pub fn verif_dump(&self) -> PoolDump {
+        PoolDump {
+            entries: self
+                .entries
+                .iter()
+                .map(|(_, e)| EntryDump {
+                    id: e.id.clone(),
+                    status: e.status,
+                    entry: e.inner.clone(),
+                    score: e.score.clone(),
+                    evict_key: e.evict_key.clone(),
+                })
+                .collect(),
+            links: self
+                .links
+                .inner
+                .iter()
+                .map(|(id, l)| {
+                    (
+                        id.clone(),
+                        l.parents.iter().cloned().collect(),
+                        l.children.iter().cloned().collect(),
+                    )
+                })
+                .collect(),
+            inputs: self
+                .edges
+                .inputs
+                .iter()
+                .map(|(o, id)| (o.clone(), id.clone()))
+                .collect(),
+            deps: self
+                .edges
+                .deps
+                .iter()
+                .map(|(o, ids)| (o.clone(), ids.iter().cloned().collect()))
+                .collect(),
+            header_deps: self
+                .edges
+                .header_deps
+                .iter()
+                .map(|(id, hs)| (id.clone(), hs.clone()))
+                .collect(),
+            max_ancestors_count: self.max_ancestors_count,
+            total_tx_size: self.total_tx_size,
+            total_tx_cycles: self.total_tx_cycles,
+            pending_count: self.pending_count,
+            gap_count: self.gap_count,
+            proposed_count: self.proposed_count,
+        }
+    }
+
+    pub fn verif_add_entry(
+        &mut self,
+        entry: TxEntry,
+        status: Status,
+    ) -> Result<(bool, HashSet<TxEntry>), Reject> {
+        self.add_entry(entry, status)
+    }
+
+    pub fn verif_set_entry(&mut self, id: &ProposalShortId, status: Status) {
+        self.set_entry(id, status)
+    }
+
+    pub fn verif_remove_entry(&mut self, id: &ProposalShortId) -> Option<TxEntry> {
+        self.remove_entry(id)
+    }
+
+    pub fn verif_remove_entry_and_descendants(&mut self, id: &ProposalShortId) -> Vec<TxEntry> {
+        self.remove_entry_and_descendants(id)
+    }
+
+    pub fn verif_resolve_conflict(&mut self, tx: &TransactionView) -> Vec<(TxEntry, Reject)> {
+        self.resolve_conflict(tx)
+    }
+
+    pub fn verif_resolve_conflict_header_dep(
+        &mut self,
+        headers: &HashSet<Byte32>,
+    ) -> Vec<(TxEntry, Reject)> {
+        self.resolve_conflict_header_dep(headers)
+    }
+
+    pub fn verif_next_evict_entry(&self, status: Status) -> Option<ProposalShortId> {
+        self.next_evict_entry(status)
+    }
+
+    pub fn verif_find_conflict_tx(&self, tx: &TransactionView) -> HashSet<ProposalShortId> {
+        self.find_conflict_tx(tx)
+    }
+
+    pub fn verif_calc_ancestors(&self, id: &ProposalShortId) -> HashSet<ProposalShortId> {
+        self.calc_ancestors(id)
+    }
+
+    pub fn verif_calc_descendants(&self, id: &ProposalShortId) -> HashSet<ProposalShortId> {
+        self.calc_descendants(id)
+    }
+}
+
+impl TxPool {
+    pub fn verif_pool_map(&self) -> &PoolMap {
+        &self.pool_map
+    }
+
+    pub fn verif_pool_map_mut(&mut self) -> &mut PoolMap {
+        &mut self.pool_map
+    }
+
+    pub fn verif_limit_size(
+        &mut self,
+        callbacks: &Callbacks,
+        current_entry_id: Option<&ProposalShortId>,
+    ) -> Option<Reject> {
+        self.limit_size(callbacks, current_entry_id)
+    }
+
+    pub fn verif_remove_expired(&mut self, callbacks: &Callbacks) {
+        self.remove_expired(callbacks)
+    }
+
+    pub fn verif_remove_committed_txs<'a>(
+        &mut self,
+        txs: impl Iterator<Item = &'a TransactionView>,
+        callbacks: &Callbacks,
+        detached_headers: &HashSet<Byte32>,
+    ) {
+        self.remove_committed_txs(txs, callbacks, detached_headers)
+    }
+
+    pub fn verif_remove_by_detached_proposal<'a>(
+        &mut self,
+        ids: impl Iterator<Item = &'a ProposalShortId>,
+    ) {
+        self.remove_by_detached_proposal(ids)
+    }
+
+    pub fn verif_remove_tx(&mut self, id: &ProposalShortId) -> bool {
+        self.remove_tx(id)
+    }
+
+    pub fn verif_check_rbf(
+        &self,
+        snapshot: &Snapshot,
+        entry: &TxEntry,
+    ) -> Result<HashSet<ProposalShortId>, Reject> {
+        self.check_rbf(snapshot, entry)
+    }
+
+    pub fn verif_snapshot(&self) -> std::sync::Arc<Snapshot> {
+        self.cloned_snapshot()
+    }
+}
